@@ -9,7 +9,7 @@
 using namespace vk;
 
 enum Where { W_STDIN, W_FD1, W_FILE, W_ENV, W_ARG, W_REPORT };
-struct Base { std::string subj; std::string note; std::string in0, in1; std::vector<std::string> env, args; int variant = 0; };
+struct Base { std::string subj; std::string note; std::string in0, in1; std::vector<std::string> env, args; int variant = 0; std::string path; /* W_FILE: the file that holds subj, if not the surface's target */ };
 struct Mut { int base, kind, pos, arg; };
 struct Surface {
   std::string name, prog; std::vector<Base> bases; std::string alpha; std::set<int> ok; int uid = 1000, gid = 1000; std::string cwd = "/"; Where where = W_STDIN; std::string target; /* file path, env name */ int argi = 0;
@@ -156,6 +156,17 @@ static Surface make_surface(const std::string &name, bool th) {
     S.prog = "qmail-pw2u"; S.uid = 0; S.gid = 0; S.ok = {0, 100, 111}; S.alpha = Z(":\n\0\xff-/", 6);
     S.bases = { B("root:x:0:0:root:/root:/bin/sh\njoe:x:507:100:Joe:/home/joe:/bin/sh\nJane-X:x:508:100::/home/jane:\nalias:x:7790:2108::/var/qmail/alias:/bin/true\n", "passwd", {}, {"-/", "-h"}), B("joe:x:507:100:Joe:/home/joe:/bin/sh\n", "passwd -o -c-", {}, {"-o", "-c-", "-C"}) };
     for (size_t l : {1000u, 70000u}) S.extras.push_back(B(std::string(l, 'u') + ":x:1:2:" + std::string(l, 'g') + ":" + std::string(l, '/') + ":\n", "fields of " + std::to_string(l) + " bytes", {}, {"-h"}));
+  } else if (name == "ctl-smtpd" || name == "ctl-qmtpd" || name == "ctl-inject") {
+    // control files as input: every single-point mutation of a typical content of each control file the program reads
+    bool inj = name == "ctl-inject", mtp = name == "ctl-qmtpd";
+    S.prog = inj ? "qmail-inject" : mtp ? "qmail-qmtpd" : "qmail-smtpd"; S.where = W_FILE; S.alpha = Z("\n\0\xff#:@. 09-", 12);
+    if (inj) { S.ok = {0, 100, 111}; } else { S.uid = UID_QMAILD; S.gid = GID_NOFILES; S.ok = mtp ? std::set<int>{0, 100, 111} : std::set<int>{0, 1}; }
+    std::vector<std::pair<std::string, std::string>> files = inj ? std::vector<std::pair<std::string, std::string>>{{"me", "mx.example\n"}, {"defaulthost", "dh\n"}, {"defaultdomain", "dd.example\n"}, {"plusdomain", "pd.example\n"}, {"idhost", "id.example\n"}}
+      : mtp ? std::vector<std::pair<std::string, std::string>>{{"me", "mx.example\n"}, {"databytes", "100000\n"}, {"localiphost", "mx.example\n"}, {"rcpthosts", "a.example\n.d.example\n"}}
+      : std::vector<std::pair<std::string, std::string>>{{"me", "mx.example\n"}, {"smtpgreeting", "mx.example ESMTP hello\n"}, {"localiphost", "mx.example\n"}, {"timeoutsmtpd", "1200\n"}, {"databytes", "100000\n"}, {"rcpthosts", "a.example\nb.example\n.d.example\n#c\n"}, {"badmailfrom", "bad@x.example\n@bad.example\n"}};
+    std::string in0 = inj ? hdr_base(1) + "To: a+x, b@c+\n" : mtp ? ns("\n" + MSG) + ns("s@src.example") + ns(ns("r1@a.example") + ns("r2@[10.0.0.1]")) : smtp_base(0);
+    for (auto &f : files) { Base b = B(f.second, "control/" + f.first, inj ? std::vector<std::string>{"USER=injector"} : peer); b.in0 = in0; b.path = "/var/qmail/control/" + f.first; S.bases.push_back(b);
+      for (size_t l : {0u, 1u, 1000u, 70000u}) for (const char *fill : {"x", "\n", "9", ":", "#", "@"}) { Base x = b; x.subj = rep(fill, l); x.note = "control/" + f.first + " = " + std::to_string(l) + " x [" + esc(fill) + "]"; S.extras.push_back(x); x.subj += "\n"; S.extras.push_back(x); } }
   } else if (name == "maildirnames") {
     // qmail-pop3d over a maildir whose file names are hostile (names are chosen by whoever delivers)
     S.prog = "qmail-pop3d"; S.ok = {0, 1}; S.cwd = "/home/u"; S.where = W_FILE; S.target = "NAME"; S.alpha = Z(":,\xff 2S.-", 8); Base b = B("1000.2.host:2,S", "file name"); b.in0 = "STAT\r\nLIST\r\nUIDL\r\nRETR 1\r\nTOP 1 1\r\nDELE 1\r\nQUIT\r\n"; S.bases = {b};
@@ -199,6 +210,7 @@ struct C20 : Scenario {
     if (S.name == "popup") args = {"pop.example", "checker", "arg"};
     if (S.name == "dotqmail" || S.name == "localmsg") { k.put_file("/home/u/.qmail-ext", S.name == "dotqmail" ? input : base->in0, 0644, 1000, 1000); if (S.name == "localmsg") { in0 = input; } for (auto d : {"new", "cur", "tmp"}) k.mkdir_p(std::string("/home/u/Maildir/") + d, 0700, 1000, 1000); }
     if (S.name == "newu") k.put_file("/var/qmail/users/assign", input);
+    if (!base->path.empty()) k.put_file(base->path, input);
     if (S.name == "pw2u") { k.mkdir_p("/var/qmail/users"); }
     std::map<int, int> fds; fds[0] = QmailEnv::preloaded_pipe(w, in0);
     if (S.prog == "qmail-local") { int ino = k.put_file(QmailEnv::messpath(124), in0, 0644, UID_QMAILQ, GID_QMAIL); int o = k.new_ofd(); k.ofds[o]->kind = K_FILE; k.ofds[o]->ino = ino; k.ofds[o]->flags = O_RDONLY; k.I(ino)->openrefs++; fds[0] = o; }   /* qmail-local rewinds its input */
